@@ -241,6 +241,14 @@ class DescribeE2E(Harness):
         return result(f"P{P}", obl, observe={"cls": "ran"}, inputs={"P": P, **{f"L{i}": lia.LInt(Ls[i]) for i in range(P)}})
 
 
+def _spelled(xml, p):
+    """the definition FILE handed to the command may be spelled with comments and whitespace between all elements (same definition)"""
+    if p.get("commented"):
+        from checks import xmlvar
+        xml = xmlvar.with_whitespace(xmlvar.with_comments(xml, xmlvar.gap_positions(xmlvar.canonical_root(xml))))
+    return xml
+
+
 def _cli_parse(cli, open_fn, def_path, index, def_cls=None):
     """the real parse command body with the terminal output recorded; -> (recorder, exception name)"""
     from pathlib import Path
@@ -283,6 +291,13 @@ class ParseCLI(_e2e.E2E):
             def from_xtce(cls, path, **kw):
                 return bv.symbolize_definition(lib.definitions.XtcePacketDefinition.from_xtce(path, **kw))
         return _cli_parse(cli, lambda path, mode="rb": bv.SymFileBV(stream), self.xml_path, index, Def)
+
+    def run(self, ctx):
+        if self.load_error:
+            p = self.job["params"]
+            return result("load-error", [(f"the definition file (a valid document) loads ({self.load_error})", False)], observe={"cls": "ran"},
+                          inputs={"stream": bv.SymBytes([]), "template": p["template"], "lens": list(p["lens"]), "idx": 0, "parse_bad": True, "yield_unrec": False})
+        return super().run(ctx)
 
     def collect(self, ctx, stream, parse_bad, yield_unrec, n):
         rec, exc = self._run(stream, None)
@@ -338,6 +353,7 @@ def make(job):
         from spv import specxtce
         p = job["params"]
         xml, _, _ = templates.get(p["template"])
+        xml = _spelled(xml, p)
         lib = bv.install(max(128, 8 * max(p["lens"]) + 64))
         h = ParseCLI(job)
         h.lib = lib
@@ -347,7 +363,10 @@ def make(job):
         import atexit
         atexit.register(lambda q=h.xml_path: os.path.exists(q) and os.unlink(q))
         h.spec = specxtce.Spec(xml)
-        h.defn = bv.symbolize_definition(lib.definitions.XtcePacketDefinition.from_xtce(io.BytesIO(xml)))
+        try:
+            h.defn, h.load_error = bv.symbolize_definition(lib.definitions.XtcePacketDefinition.from_xtce(io.BytesIO(xml))), None
+        except Exception as e:     # noqa: BLE001 - reported as a counterexample by run()
+            h.defn, h.load_error = None, type(e).__name__
         return h
     lib = bv.install(128)
     h = {"describe": Describe, "parse": Parse, "twin": Twin}[job["h"]](job)
@@ -364,6 +383,8 @@ def jobs(tier):
     N = 13 if tier == "quick" else 24
     return [{"name": "describe", "h": "describe", "params": {"N": N}, "split": 8, "chunk": 20, "must_reach": ["n0", "n10", "n11"]},
             {"name": "parse", "h": "parse", "params": {"N": N}, "split": 16, "chunk": 30, "must_reach": ["shown", "oor"]}] + \
+        [{"name": "parse-cli-T6-12-commented-definition", "h": "parse-cli", "params": {"template": "T6", "lens": [12], "flagsets": [1], "commented": True}, "split": 8, "chunk": 25,
+          "max_paths": 100000, "must_reach": []}] + \
         [{"name": f"parse-cli-{t}-{'-'.join(map(str, lens))}", "h": "parse-cli", "params": {"template": t, "lens": lens, "flagsets": [1]}, "split": 16, "chunk": 25,
           "max_paths": 200000, "must_reach": []} for t, lens in ((("T4", [9, 10]), ("T4", [9, 9, 9])) if tier == "quick" else (("T4", [9, 10, 9]), ("T4", [10, 9, 9]), ("T1", [19, 19]), ("T6", [12, 12])))] + \
         [{"name": f"describe-e2e-P{P}", "h": "describe-e2e", "params": {"P": P}, "split": 8, "chunk": 20, "must_reach": [f"P{P}"]} for P in ((1, 2, 11) if tier == "quick" else (1, 2, 3, 10, 11, 12))]
@@ -454,7 +475,10 @@ def _parse_cli_concrete(req):
     stream = bytes.fromhex(i["stream"]["hex"])
     with tempfile.TemporaryDirectory(prefix="spv_c19_") as d:
         xf = os.path.join(d, "x.xml")
-        open(xf, "wb").write(xml)
+        open(xf, "wb").write(_spelled(xml, req.get("params") or {}))
+        if not stream:
+            rec, exc = _cli_parse(cli, lambda path, mode="rb": io.BytesIO(b""), xf, None)
+            return {"cls": "ran", "empty_file": {"exc": exc, "printed": [str(x)[:80] for x in rec.pp]}}
 
         def runner(_xml, _stream):
             rec, exc = _cli_parse(cli, lambda path, mode="rb": io.BytesIO(_stream), xf, None)
@@ -485,6 +509,10 @@ def judge(req, got):
     if got.get("cls") in ("WORKER-ERROR", "WORKER-DIED", "TIMEOUT"):
         return "error", str(got)[:300]
     i = req["input"]
+    if req["kind"] == "parse-cli" and "empty_file" in got:
+        if got["empty_file"]["exc"]:
+            return "reproduced", f"spp parse on an empty packet file with the definition {i['template']}" + (" spelled with comments and whitespace between all elements" if (req.get("params") or {}).get("commented") else "") + f" ends in {got['empty_file']['exc']}"
+        return "not-reproduced", "loads"
     if req["kind"] == "parse-cli":
         verdict, why = _e2e.judge(req, got)
         if verdict != "not-reproduced":
